@@ -23,7 +23,7 @@ CHECKS = {
    "The driver queues all packets of a call before reacting to its events (documented ordering). One publish or play per connection; the application accepts everything."),
  "C03": ("exploration",
    "property-based testing + child-process isolation: generated raw / well-framed / adversarial-header inputs, oracle = returns, no unwinding (overflow checks on), bounded heap, watchdog",
-   "Three generators (raw and mutated bytes; well-framed messages with arbitrary bodies and argument lists interleaved with application calls; adversarial chunk headers) drive five targets (handshake, deserializer, message decoder, server and client sessions in four preparatory states). Cases run in worker processes with a counting allocator (peak heap <= 256 x bytes fed + 17 MiB, hard cap) and a watchdog, and again in-process so that a failure is shrunk. Absence of panics cannot be established by search; the generators are measured to reach every handler state.",
+   "Three generators (raw and mutated bytes; well-framed messages with arbitrary bodies (among them AMF0 bodies whose count / length fields announce up to 2^32-1 and hold a few bytes) and argument lists interleaved with application calls; adversarial chunk headers) drive five targets (handshake, deserializer, message decoder, server and client sessions in four preparatory states). Cases run in worker processes with a counting allocator (peak heap <= 256 x bytes fed + 17 MiB, hard cap) and a watchdog, and again in-process so that a failure is shrunk. Absence of panics cannot be established by search; the generators are measured to reach every handler state.",
    "DESIGN.md §4 C03",
    "Built with overflow-checks and debug-assertions. AMF0 nesting depth <= 4 here (C14 owns depth). u32 acknowledgement counters need ~4 GiB per session to overflow: stated, not checked. Hang = 60 s watchdog on cases that take microseconds."),
  "C04": ("exploration",
@@ -83,7 +83,7 @@ CHECKS = {
    "2 MiB = Rust's default thread stack. Termination by 120 s watchdog, three orders of magnitude above the normal cost."),
  "C15": ("exploration",
    "metamorphic testing: the same stream under four partitions through fresh deserializers / sessions must give identical results and identical error position",
-   "Valid library streams, foreign streams, raw bytes and mutants of them are delivered in one call, byte by byte and under two generated partitions; the deserializer's message sequence, error position and variant must agree; for sessions (four preparatory states each) every call must return exactly the byte-by-byte results of its byte range and the failing call must be the one containing the byte at which byte-by-byte delivery fails.",
+   "Valid library streams, foreign streams, raw bytes and mutants of them are delivered in one call, byte by byte and under two generated partitions; the deserializer's message sequence, error position and variant must agree (one sub-check hands 12..40 MiB of valid stream over in ONE read and compares with 65535-byte reads); for sessions (four preparatory states each) every call must return exactly the byte-by-byte results of its byte range and the failing call must be the one containing the byte at which byte-by-byte delivery fails.",
    "DESIGN.md §4 C15",
    "Error position is judged at the granularity the API has. Acknowledgements and session-generated timestamps are masked (C17/C18 own them)."),
  "C16": ("exploration",
